@@ -72,6 +72,7 @@ def arrArg (fields : List String) (st : St) : M (ArrK × List Int × St) :=
   | "cl" :: m :: v :: _ => do let mx ← nats? m; let l ← nats? v; pure (.cl mx, l.map Int.ofNat, st)
   | "rt" :: n :: _ => do let k ← nat? n; let (r, st') ← popArg st; pure (.rt k, r, st')
   | "rtv" :: _ => do let (r, st') ← popArg st; pure (.rtv, r, st')
+  | "sv" :: n :: _ => do let k ← nat? n; let (r, st') ← popArg st; pure (.bnd k, r, st')
   | _ => .error "bad-array-arg"
 
 def axisArg (fields : List String) (st : St) : M (AxisK × Option (List Nat) × St) :=
